@@ -48,6 +48,7 @@ def gen_schema(g):
     Value = v.Value
     MapValue, ListValue = v.datapath.MapValue, v.datapath.ListValue
     rules, info = [], []
+    maxd = g.r.choice([2, 3, 3, 3, 8])
 
     def doc():
         k = g.r.random()
@@ -71,11 +72,12 @@ def gen_schema(g):
         return {"description": [x.strip() for x in d["description"]], "examples": [x.strip() for x in d["examples"]]}
 
     def node(path, depth):
-        kind = g.r.choice(["map", "map", "anymap", "list", "leaf", "leaf"]) if depth < 3 else "leaf"
+        # one schema in five is a deep, narrow one (heading levels beyond <h6>)
+        kind = g.r.choice(["map", "map", "anymap", "list", "leaf", "leaf"] if depth < 3 else ["map", "anymap", "list"]) if depth < maxd else "leaf"
         conds, req, allowed = [], [], []
         keys = []
         if kind == "map":
-            keys = g.r.sample(KEYS, g.r.randint(1, 3))
+            keys = g.r.sample(KEYS, g.r.randint(1, 3) if depth < 3 else 1)
             conds.append(Value.dtype.equal_to(dict))
             if g.r.random() < 0.7:
                 allowed = keys + ([g.r.choice(KEYS)] if g.r.random() < 0.3 else [])
@@ -281,7 +283,7 @@ def run(tier, seed, model_ok, spec_ok, replay=None):
                 cases.append(tc)
                 dist["tree-model"] += 1
         for anchor in (None, g.r.choice(["root", "sec-1", "A_b"])):
-            start = g.r.choice([1, 2, 3])
+            start = g.r.choice([1, 2, 3, 5])
             show = g.r.random() < 0.7
             out = E.run_outcome(lambda: v.schema.write_tree_html(nested, anchor_root=anchor, heading_start_level=start, show_root_heading=show))
             dist["html:" + ("ok" if out[0] == "ok" else out[1])] += 1
